@@ -232,6 +232,65 @@ def addFeatureLinks (links : Option (List Nat)) (feats : List Feature) : Option 
     | some l, none => some [l]
     | some l, some ls => some (if ls.contains l then ls else ls ++ [l])) links
 
+/-! ## object identity: what `deepcopy(requested_features)` shares with the caller
+
+Feature objects live in a heap (object id = position).  Option values are data, handles that cannot be deep-copied
+(connections, locks, generators: `Options.__deepcopy__` keeps exactly that value by reference) or references to nested
+Feature objects (`in_features`).  The engine writes into every object it can reach from the features it was handed
+(flag, compute frameworks, merged child options, `child_options`). -/
+
+inductive OVal where
+  | scalar (n : Nat)
+  | handle (h : Nat)            -- not deep-copyable: kept by reference, never written by the engine
+  | feats (ids : List Nat)      -- nested Feature objects
+  deriving DecidableEq, Repr
+
+structure FObj where
+  name : Nat
+  opts : List (Nat × OVal)
+  touched : Bool                -- the engine wrote into this object
+  deriving DecidableEq, Repr
+
+abbrev Heap := List FObj
+
+def shiftVal (n : Nat) : OVal → OVal
+  | .feats ids => .feats (ids.map (· + n))
+  | v => v
+
+/-- `Options.__deepcopy__` as coded: per key, deep copy the value, fall back to the same object for that key only.
+The copy of object `i` of an `n`-object graph is object `i + n`. -/
+def copyObj (n : Nat) (o : FObj) : FObj := { o with opts := o.opts.map (fun kv => (kv.1, shiftVal n kv.2)) }
+
+def hasHandle (o : FObj) : Bool := o.opts.any (fun kv => match kv.2 with | .handle _ => true | _ => false)
+
+/-- the variant in which one un-copyable value makes the whole options dict fall back to a shallow copy -/
+def copyObjWhole (n : Nat) (o : FObj) : FObj := if hasHandle o then o else copyObj n o
+
+/-- `deepcopy` of the caller's whole object graph: originals stay at `0 … n-1`, copies are appended -/
+def deepcopyHeap (perKey : Bool) (h : Heap) : Heap := h ++ h.map (if perKey then copyObj h.length else copyObjWhole h.length)
+
+def refsOf (h : Heap) (i : Nat) : List Nat :=
+  match h[i]? with
+  | some o => o.opts.flatMap (fun kv => match kv.2 with | .feats ids => ids | _ => [])
+  | none => []
+
+def touchAt : Nat → Heap → Heap
+  | _, [] => []
+  | 0, o :: os => { o with touched := true } :: os
+  | i + 1, o :: os => o :: touchAt i os
+
+/-- the engine's writes: everything reachable (within `fuel` levels) from the objects it was handed -/
+def touch : Nat → List Nat → Heap → Heap
+  | 0, _, h => h
+  | fuel + 1, roots, h =>
+    let h' := roots.foldl (fun h i => touchAt i h) h
+    touch fuel (roots.flatMap (refsOf h')) h'
+
+/-- one API call with `copy_features=True` on the caller's objects `h`, requesting the objects `roots`:
+the caller's objects afterwards -/
+def callerAfterCall (perKey : Bool) (fuel : Nat) (h : Heap) (roots : List Nat) : Heap :=
+  (touch fuel (roots.map (· + h.length)) (deepcopyHeap perKey h)).take h.length
+
 /-! ## a `GlobalFilter` object shared between calls -/
 
 /-- what `SingleFilter.__eq__` compares once the filter feature has been enriched: name, compute framework and options
